@@ -29,9 +29,9 @@ int compare_icase(const char* a, const char* b)
     }
 
     if (*a == 0 && *b != 0)
-        return +1;
-    if (*a != 0 && *b == 0)
         return -1;
+    if (*a != 0 && *b == 0)
+        return +1;
     return 0;
 }
 
@@ -52,9 +52,9 @@ int compare_icase(const char* a, tlx::string_view b)
     }
 
     if (*a == 0 && bi != b.end())
-        return +1;
-    if (*a != 0 && bi == b.end())
         return -1;
+    if (*a != 0 && bi == b.end())
+        return +1;
     return 0;
 }
 
@@ -75,9 +75,9 @@ int compare_icase(tlx::string_view a, const char* b)
     }
 
     if (ai == a.end() && *b != 0)
-        return +1;
-    if (ai != a.end() && *b == 0)
         return -1;
+    if (ai != a.end() && *b == 0)
+        return +1;
     return 0;
 }
 
@@ -99,9 +99,9 @@ int compare_icase(tlx::string_view a, tlx::string_view b)
     }
 
     if (ai == a.end() && bi != b.end())
-        return +1;
-    if (ai != a.end() && bi == b.end())
         return -1;
+    if (ai != a.end() && bi == b.end())
+        return +1;
     return 0;
 }
 
